@@ -49,6 +49,13 @@ CHECKS = {
         "text": "Each ProgGen program (20% with an injected semantic error) is rendered plainly and four times by a layout engine that inserts blanks, tabs, nested and multi-line block comments, comments containing code-like text, blank lines, CRLF and random letter case/radix/leading zeros at every boundary where the grammar's ws/mws wrappers accept them; the real library must report identical segment bytes, final symbol values and diagnostic messages. Coverage of (boundary kind x trivia kind) pairs is reported.",
         "note": "The whitelist of trivia positions is the renderer's reading of the grammar; a wrong whitelist shows up as a false alarm (variant rejected), not as a miss. Anonymous scope numbers are normalised (hash-order dependent, see C10).",
     },
+    "C11": {
+        "engine": "probe",
+        "category": "exploration",
+        "technique": "runtime monitoring: source-map entries and listing rows of the real library compared with the emission record of the certificate walker (independent ground truth), plus CLI slice for .lst files",
+        "text": "For every generated program that assembles and passes the certificate checker, the walker's record of (statement span, target address, length, macro invocation) must equal the source map as a multiset in both attribution modes; listings with 1..16 bytes per row are parsed and must show every source line once and in order, the target address of each row's first byte, the line's bytes in emission order and every emitted byte exactly once - also for relocated segments, loops, imports and macros invoked several times. Every 15th program is built by `mos build` with listing = true and the .lst files compared.",
+        "note": "Plain layout (one statement per line). Trusts the walker (itself validated against the images by C02).",
+    },
     "C12": {
         "engine": "probe",
         "category": "exploration",
